@@ -28,3 +28,235 @@ def c09(tier, replay=None):
 REGISTRY = {
     'C09': c09,
 }
+
+
+# ---------------------------------------------------------------------------
+# C03 / C18: the optimiser and the rebuild plan (Optimizer.tla + mutseq engine)
+
+MERGEABLE_DOC = '{"add_column", "change_column", "change_meta", "delete_column"}'
+
+
+def _code_mergeable():
+    """The tuple the code really uses, rendered as a TLA+ set (binding)."""
+    from django_evolution.db.sqlite3 import EvolutionOperations
+    return '{%s}' % ', '.join('"%s"' % t for t in EvolutionOperations.mergeable_ops)
+
+
+def _optimizer_cfg(maxlen, start, alpha, mergeable, emit=True):
+    from .tlc import write_cfg
+    return write_cfg('MC_Optimizer_%d_%d_%d.cfg' % (maxlen, start, alpha), '''
+SPECIFICATION Spec
+CONSTANTS
+  MaxLen = %d
+  StartId = %d
+  AlphaId = %d
+  Mergeable = %s
+  EmitRecords = %s
+CONSTRAINT Constraint
+''' % (maxlen, start, alpha, mergeable, 'TRUE' if emit else 'FALSE'))
+
+
+def _optimizer_space(tier):
+    """(maxlen, start, alpha) triples explored exhaustively by TLC."""
+    if tier == 'quick':
+        return [(2, 1, 1), (3, 3, 2), (2, 2, 3)]
+    return [(3, 1, 1), (4, 3, 2), (3, 2, 3), (3, 2, 1)]
+
+
+def _start_sig(start_id):
+    """Start signature as TLC prints it (one tiny TLC evaluation, cached)."""
+    from .tlc import run_tlc, require_ok, write_cfg
+    global _START_CACHE
+    try:
+        return _START_CACHE[start_id]
+    except (NameError, KeyError):
+        pass
+    cfg = write_cfg('MC_Optimizer_start_%d.cfg' % start_id, '''
+SPECIFICATION Spec
+CONSTANTS
+  MaxLen = 0
+  StartId = %d
+  AlphaId = 9
+  Mergeable = {}
+  EmitRecords = TRUE
+CONSTRAINT Constraint
+''' % start_id)
+    res = require_ok(run_tlc('Optimizer', cfg, workers=1), 'start signature')
+    sig = res.records[0]['final']
+    try:
+        _START_CACHE[start_id] = sig
+    except NameError:
+        _START_CACHE = {start_id: sig}
+    return sig
+
+
+_START_CACHE = {}
+
+
+def _explore_optimizer(report, tier, mergeable):
+    from .tlc import run_tlc, require_ok
+    out = []
+    for maxlen, start, alpha in _optimizer_space(tier):
+        cfg = _optimizer_cfg(maxlen, start, alpha, mergeable)
+        res = require_ok(run_tlc('Optimizer', cfg, workers=16, timeout=5400),
+                         'Optimizer.tla len<=%d start=%d alpha=%d' % (maxlen, start, alpha))
+        report.add_tlc('Optimizer len<=%d start=%d alpha=%d' % (maxlen, start, alpha),
+                       res.stats())
+        if res.invariant_violated:
+            report.notes.append('TLC: invariant %s violated in Optimizer.tla (start=%d alpha=%d)'
+                                % (res.invariant_violated, start, alpha))
+        start_sig = _start_sig(start)
+        for rec in res.records:
+            out.append((rec, start_sig))
+    return out
+
+
+def _pick(records, limit, rng):
+    """All records when they fit, else every predicted-violation record plus a
+    seeded sample stratified by length."""
+    if len(records) <= limit:
+        return list(records)
+    hot = [r for r in records if r[0]['viol']]
+    cold = [r for r in records if not r[0]['viol']]
+    rng.shuffle(hot)
+    rng.shuffle(cold)
+    hot = hot[:limit // 2]
+    return hot + cold[:max(0, limit - len(hot))]
+
+
+def _mutseq_check(prop, tier, judge_name):
+    import random
+    from . import djsetup
+    djsetup.setup()
+    from .absmodel import ALT_NAMES, norm_mutation, short
+    from .common import seed
+    from .engines import mutseq
+    report = Report(prop, tier)
+    mergeable = _code_mergeable()
+    report.notes.append('Mergeable bound to the code: %s' % mergeable)
+    recs = _explore_optimizer(report, tier, mergeable)
+    rng = random.Random(seed() * 1000003 + 11)
+    limit = 1800 if tier == 'quick' else 40000
+    chosen = _pick(recs, limit, rng)
+    jobs = []
+    for i, (rec, start_sig) in enumerate(chosen):
+        names_idx = i % len(ALT_NAMES) if tier == 'thorough' else (i % 2)
+        split = 'single' if i % 3 else 'each'
+        jobs.append((rec, start_sig, names_idx, split, prop == 'C03'))
+    observations = mutseq.observe_many(jobs)
+    nontrivial = set()
+    harness_errors = 0
+    ref_failed = 0
+    for (rec, start_sig, names_idx, split, _w), obs in zip(jobs, observations):
+        report.coverage['evaluations'] += 1
+        seq = [norm_mutation(m) for m in rec['seq']]
+        key = json_key(seq, rec['start'])
+        if len(seq) >= 2:
+            nontrivial.add(key)
+        if obs is None or obs.get('harness_error'):
+            harness_errors += 1
+            if harness_errors <= 3:
+                report.notes.append('harness error: %s' % (obs or {}).get('harness_error'))
+            continue
+        report.coverage['traces_validated_against_impl'] += 1
+        if not obs.get('ref', {}).get('ok'):
+            ref_failed += 1
+        label = [short(m) for m in seq]
+        if prop == 'C03':
+            fails = mutseq.c03_failures(rec, obs)
+            for cls, detail in fails:
+                clause = mutseq.C03_CLAUSE[cls]
+                predicted = clause in rec['viol']
+                if cls in mutseq.DB_LEVEL and not predicted:
+                    # a predicted signature difference explains a schema difference
+                    predicted = (('OptSameSig' if cls.startswith('opt-') else 'TwoPassSameSig')
+                                 in rec['viol'])
+                fp = {'class': cls, 'predicted_by_spec': predicted,
+                      'level': 'db' if cls in mutseq.DB_LEVEL else 'sig',
+                      'hazards': sorted(rec.get('hazards') or [])}
+                if cls.startswith('opt-') and predicted and cls not in mutseq.DB_LEVEL:
+                    fp['cause'] = rec.get('cause')
+                report.fail(fp, {'sequence': label, 'start': rec['start'],
+                                 'names': names_idx, 'split': split,
+                                 'observed': detail, 'spec_viol': rec['viol'],
+                                 'abstract_seq': seq})
+            # binding: surviving list vs the transcription's prediction
+            if obs.get('opt_list') is not None:
+                want = [norm_mutation(m) for m in rec['optlist']]
+                have = [norm_mutation(m) for m in obs['opt_list']]
+                if want != have and rec['optOk']:
+                    report.spec_drift('optimised list differs from Optimizer.tla for %s' % label,
+                                      {'spec': [short(m) for m in want],
+                                       'code': [short(m) for m in have]})
+            # spec predicted a violation the code does not show -> drift, not alarm
+            seen = set(mutseq.C03_CLAUSE[c] for c, _ in fails)
+            for clause in rec['viol']:
+                if clause in ('RebuildsNotWorse', 'OneRebuildPerMergeableRun'):
+                    continue
+                if clause in ('OptSameData', 'TwoPassSameData') and (
+                        'opt-exec-failed' in [c for c, _ in fails] or
+                        'pipeline-exec-failed' in [c for c, _ in fails]):
+                    continue
+                if clause not in seen and obs.get('ref', {}).get('ok'):
+                    report.spec_drift('Optimizer.tla predicts %s for %s but the code satisfies it'
+                                      % (clause, label))
+        else:
+            names = ALT_NAMES[names_idx]
+            fails = mutseq.c18_failures(rec, obs, names)
+            for cls, detail in fails:
+                clause = ('RebuildsNotWorse' if cls == 'more-rebuilds-than-unbatched'
+                          else 'OneRebuildPerMergeableRun')
+                report.fail({'class': cls, 'predicted_by_spec': clause in rec['viol']},
+                            {'sequence': label, 'start': rec['start'],
+                             'observed': detail, 'abstract_seq': seq})
+            # binding of the rebuild plan
+            if obs.get('rebuilds_bat') is not None and rec['optOk']:
+                want = {names.table(t): n for t, n in dict_or_empty(rec['rbOpt']).items()}
+                if want != obs['rebuilds_bat']:
+                    report.spec_drift('rebuild plan differs for %s' % label,
+                                      {'spec': want, 'code': obs['rebuilds_bat']})
+        report.sample({'sequence': label, 'start': rec['start'],
+                       'spec_viol': rec['viol'],
+                       'real': {k: obs.get(k) for k in ('ref', 'bat', 'evo',
+                                                        'rebuilds_ref', 'rebuilds_bat')}})
+    report.coverage['distinct_nontrivial'] = len(nontrivial)
+    report.coverage['exhaustive'] = len(chosen) == len(recs) and harness_errors == 0
+    report.coverage['rule'] = (
+        'TLC enumerates every simulation-valid mutation sequence up to the length bound over '
+        'the alphabets of Optimizer.tla (Extend enabled iff Sig!Sim accepts) and evaluates the '
+        'transcribed optimiser on each; %d of %d sequences were replayed into the real code '
+        'through three pipelines on identical databases. Non-trivial = length >= 2; distinct = '
+        'distinct (start signature, sequence).' % (len(chosen), len(recs)))
+    report.notes.append('reference (one-at-a-time) run failed on the real code for %d sequences '
+                        '(outside this property; see C01)' % ref_failed)
+    if harness_errors:
+        report.notes.append('%d harness errors' % harness_errors)
+        if harness_errors > len(jobs) // 10:
+            from .common import machinery_failure
+            machinery_failure('too many harness errors (%d of %d)' % (harness_errors, len(jobs)))
+    report.assumptions += [
+        'abstract names are concretised through order-preserving renamings',
+        'SQLite 3.26+ (native RENAME COLUMN)',
+        'a sequence is in scope only if the real one-at-a-time run accepts and executes it',
+    ]
+    return report.finish()
+
+
+def dict_or_empty(x):
+    return {} if x == [] or x is None else x
+
+
+def json_key(seq, start):
+    import json
+    return json.dumps([start, seq], sort_keys=True)
+
+
+def c03(tier, replay=None):
+    return _mutseq_check('C03', tier, 'c03')
+
+
+def c18(tier, replay=None):
+    return _mutseq_check('C18', tier, 'c18')
+
+
+REGISTRY.update({'C03': c03, 'C18': c18})
